@@ -21,7 +21,8 @@ REQUIRED_THEOREMS = ['CfVerif.C19.' + t for t in (
     'each_once_with_own_args', 'sequential_in_order', 'parallel_safe_returns_after_all', 'raises_iff_some_failed', 'cause_in_trace',
     'parallel_never_raises', 'open_failure_closes_all_and_raises', 'no_double_open', 'open_twice_raises', 'no_deadlock',
     'schedule_bounded', 'never_index_error', 'mkSwarm_nodup', 'mkSwarm_of_nodup', 'gen_spawn_loop', 'gen_join_loop', 'gen_raise',
-    'gen_wrapper', 'gen_reporter', 'gen_process_args', 'gen_sequential', 'gen_parallel', 'gen_open_links', 'gen_close_links',
+    'gen_wrapper', 'gen_reporter', 'gen_process_args', 'gen_sequential', 'gen_parallel', 'gen_open_links', 'gen_open_guard_position',
+    'gen_close_links', 'call_state', 'history_state', 'fresh_wf',
     'gen_ctor', 'gen_sync_crazyflie', 'gen_constants')]
 TRUSTED = ['harness/corr/c19.py extractor + correspondence (incl. the mapping of observed events to model steps)',
            'Driver/C19.lean: eager insertion of main\'s silent steps when replaying an observed step sequence',
@@ -36,7 +37,7 @@ ASSUMPTIONS = ['actions raise only Exception subclasses (a BaseException such as
 RULE = ('cases = real Swarm (real SyncCrazyflie members over an instrumented fake Crazyflie) under vsched: for 1-2 members EVERY interleaving '
         'x EVERY failing subset of parallel_safe / parallel / open_links, for 3-4 members every failing subset with bounded preemptions '
         '(thorough: all interleavings for <= 1 failure), plus random multi-call scenarios (0-6 members, repeated URIs, None/empty/partial '
-        'argument dictionaries, open/close/pre-open sequences) under random schedules; the observed step sequence is replayed on the '
+        'argument dictionaries, open/close/pre-open sequences) and random HISTORIES of 3-10 open/close calls on one swarm (failing, rejected and repeated opens, actions in between; link flags and _is_open compared after EVERY call) under random schedules; the observed step sequence is replayed on the '
         'Lean model, which must accept it and yield the same events, result, chained cause and link flags; distinct+non-trivial = '
         'distinct (scenario, schedule choice list)')
 
@@ -144,12 +145,28 @@ def extract(ctx):
 
     # --- open_links / close_links / __init__
     ol = _body(X.find(sw, 'open_links'))
-    X.expect(len(ol) == 2 and isinstance(ol[0], ast.If) and isinstance(ol[1], ast.Try) and len(ol[1].handlers) == 1
-             and not ol[1].finalbody and not ol[1].orelse, 'open_links: expected `if guard: raise` then try/except')
-    g.string('openGuard', ast.unparse(ol[0].test))
-    g.strings('openGuardBody', _stmts(ol[0].body))
-    g.strings('openTry', _stmts(ol[1].body))
-    g.raw('def openSetsFlag : Bool := ' + _lbool(_bool_assign(ol[1].body, 'self._is_open', 'open_links try body')))
+    trys = [s for s in ol if isinstance(s, ast.Try)]
+    X.expect(len(trys) == 1 and len(trys[0].handlers) == 1 and not trys[0].finalbody and not trys[0].orelse,
+             'open_links: expected exactly one try/except')
+    otry = trys[0]
+
+    def is_guard(st):
+        return isinstance(st, ast.If) and not st.orelse and any(isinstance(x, ast.Raise) for x in st.body)
+    before = ol[:ol.index(otry)]
+    inside = [st for st in otry.body if is_guard(st)]
+    outside = [st for st in before if is_guard(st)]
+    X.expect(len(inside) + len(outside) == 1 and (not inside or otry.body[0] is inside[0]),
+             'open_links: expected exactly one `if <guard>: raise ...`, before the try or as its first statement')
+    guard = (inside + outside)[0]
+    # WHERE the "already opened" guard sits relative to the try decides whether its raise runs the failure clean-up
+    g.raw('def openGuardInTry : Bool := ' + _lbool(bool(inside)))
+    g.strings('openShape', [type(st).__name__ for st in ol])
+    g.string('openGuard', ast.unparse(guard.test))
+    g.strings('openGuardBody', _stmts(guard.body))
+    g.strings('openTry', _stmts([st for st in otry.body if st is not guard]))
+    g.strings('openAfterTry', _stmts(ol[ol.index(otry) + 1:]))
+    g.raw('def openSetsFlag : Bool := ' + _lbool(_bool_assign(otry.body, 'self._is_open', 'open_links try body')))
+    ol = [guard, otry]
     oh = ol[1].handlers[0]
     g.string('openHandler', '%s as %s' % (ast.unparse(oh.type) if oh.type is not None else '', oh.name))
     g.strings('openHandlerBody', _stmts(oh.body))
@@ -501,7 +518,9 @@ def judge(scenario, res, out):
     ev = [(pos, t[0], t[3]) for pos, t in enumerate(res.trace) if t[1] == 'emit']
     end_pos = {i[1]: pos for pos, _, i in ev if i[0] == 'opend'}
     cfs = out.get('cfs', [])
-    was_open = False
+    # the specification's own view of the swarm over the history of calls (never derived from the real flags)
+    exp_open = False
+    exp_mem = [False] * len(cfs)
     for idx, op in enumerate(scenario['ops']):
         if idx >= len(out['ops']):
             bad.append(('harness', 'operation did not finish', idx))
@@ -513,6 +532,7 @@ def judge(scenario, res, out):
         raised = [i for _, _, i in mine if i[0] == 'raised']
         fin = [i[2] for _, _, i in mine if i[0] in ('ret', 'raised')]
         late = [i for pos, _, i in mine if pos > end_pos.get(idx, 1 << 60)]
+        closes = [i for _, _, i in ev if i[0] == 'close' and i[1] == idx]
         d = {'op': idx, 'kind': kind, 'result': o['res']}
         if kind in ('ps', 'par'):
             ok_args = args_ok(scenario, op[1])
@@ -543,10 +563,12 @@ def judge(scenario, res, out):
                 if [i for _, _, i in mine] != want or o['res'] != wres:
                     bad.append(('sequential-order', 'sequential did not run the actions one at a time in URI order', dict(d, got=[i for _, _, i in mine][:8], want=want[:8])))
         elif kind == 'open':
-            if was_open:
-                if o['res'] != 'already' or mine:
-                    bad.append(('double-open', 'an open swarm was opened again', d))
+            if exp_open:
+                if o['res'] != 'already' or mine or closes:
+                    bad.append(('double-open', 'an open swarm accepted (or acted on) a further open_links', dict(d, events=len(mine), closes=len(closes))))
             else:
+                fails = any(u in op[1] for u, _ in cfs) or any(exp_mem)
+                exp_open, exp_mem = (False, [False] * len(cfs)) if fails else (True, [True] * len(cfs))
                 if late or sorted(fin) != sorted(u for u, _ in cfs) or sorted(c[:2] for c in calls) != sorted(cfs):
                     bad.append(('returns-early', 'open_links returned before every open_link had finished (or not once per member)', dict(d, late=late[:4], finished=fin)))
                 if raised:
@@ -558,9 +580,18 @@ def judge(scenario, res, out):
                     if o['res'] != 'ok' or not all(o['mem']) or not o['open']:
                         bad.append(('open-success', 'open_links without failures did not open every link', dict(d, mem=o['mem'], is_open=o['open'])))
         elif kind == 'close':
+            exp_open, exp_mem = False, [False] * len(cfs)
             if any(o['mem']) or o['open'] or o['res'] != 'ok':
                 bad.append(('close', 'close_links left a link open', dict(d, mem=o['mem'])))
-        was_open = o['open']
+        elif kind == 'preopen':
+            if 0 <= op[1] < len(exp_mem):
+                exp_mem[op[1]] = True
+        # after EVERY call: links open iff the last successful open was not followed by a close / failed open; a rejected
+        # open and every action call leave all link states and _is_open as they were
+        if o['open'] != exp_open or list(o['mem']) != exp_mem:
+            bad.append(('history-state', 'after this call the link states / _is_open are not what the history of open and close calls implies',
+                        dict(d, mem=o['mem'], is_open=o['open'], expected_mem=list(exp_mem), expected_open=exp_open)))
+            break
     return bad
 
 
@@ -625,6 +656,30 @@ def rand_scenario(rng, ids):
     return {'uris': uris, 'ops': ops}
 
 
+def rand_history(rng, ids):
+    """a history of 3..10 open / close calls (with failing opens, rejected opens and action calls in between) on ONE swarm"""
+    n = rng.choice([1, 2, 2, 3, 4])
+    members = rng.sample(range(1, 40), n)
+    ops = []
+    for _ in range(rng.randrange(3, 11)):
+        r = rng.random()
+        if r < 0.42:
+            ops.append(('open', []))
+        elif r < 0.58:
+            ops.append(('open', [u for u in members if rng.random() < 0.5] or [rng.choice(members)]))
+        elif r < 0.78:
+            ops.append(('close',))
+        elif r < 0.88:
+            ops.append(('ps', None, ids.fails([u for u in members if rng.random() < 0.3])))
+        elif r < 0.93:
+            ops.append(('par', None, ids.fails([u for u in members if rng.random() < 0.3])))
+        elif r < 0.97:
+            ops.append(('seq', None, ids.fails([])))
+        else:
+            ops.append(('preopen', rng.randrange(n)))
+    return {'uris': members, 'ops': ops}
+
+
 def plan(ctx):
     """[(scenario, mode)]: mode = ('dfs', max_preemptions, max_runs) | ('random', n_seeds)"""
     t = ctx.tier == 'thorough'
@@ -661,6 +716,11 @@ def plan(ctx):
     # the failing member is joined first while later members still run for a long (virtual) time
     for us, fs, slow in (([5, 6], [5], {6: 3600.0}), ([5, 6, 7], [6], {5: 1.0, 7: 90000.0}), ([5, 6, 7, 8], [5, 8], {6: 0.25, 7: 10.0})):
         pl.append(({'uris': us, 'ops': [('ps', None, ids.fails(fs), slow), ('par', None, ids.fails(fs), slow)]}, ('random', 6 if t else 3)))
+    # histories of open / close calls on one swarm: state checked after every call
+    pl.append(({'uris': [5, 6], 'ops': [('open', []), ('open', []), ('open', [6]), ('close',), ('open', [5]), ('open', []), ('open', []), ('close',), ('open', [])]},
+               ('dfs', 1, 400 if t else 60)))
+    for _ in range(700 if t else 90):
+        pl.append((rand_history(rng, ids), ('random', 1)))
     # random multi-call scenarios under random schedules
     for _ in range(2500 if t else 260):
         pl.append((rand_scenario(rng, ids), ('random', 1)))
